@@ -21,6 +21,30 @@ type memConn struct {
 	seg    func() int
 	sent   *[]byte // everything this end wrote (for transcripts)
 	onCut  func()
+	// in-transit alteration of what this end writes (C04): edits at absolute offsets of its output stream
+	edits     map[int]edit
+	woff      int
+	userClose bool
+}
+
+// edit alters the byte at one absolute offset of a stream: kind 's' substitute, 'd' delete, 'i' insert val before it.
+type edit struct {
+	kind byte
+	val  []byte
+}
+
+// SetEdits installs in-transit alterations on the bytes this end writes.
+func (c *memConn) SetEdits(e map[int]edit) {
+	c.mu.Lock()
+	c.edits = e
+	c.mu.Unlock()
+}
+
+// ClosedByUser reports whether Close was called on this end.
+func (c *memConn) ClosedByUser() bool {
+	c.mu.Lock()
+	defer c.mu.Unlock()
+	return c.userClose
 }
 
 type memBuf struct {
@@ -47,7 +71,7 @@ func newMemPipe(segA, segB func() int) (*memConn, *memConn) {
 	return a, b
 }
 
-// CutAfter arms a cut on the data flowing TO this end: after k bytes delivered, the link is dead.
+// CutAfter arms a cut on the data flowing TO this end: after k bytes delivered, its reads see EOF.
 func (c *memConn) CutAfter(k int) {
 	c.mu.Lock()
 	c.in.limit = k
@@ -62,8 +86,8 @@ func (c *memConn) Read(p []byte) (int, error) {
 			return 0, io.EOF
 		}
 		if c.in.limit >= 0 && c.in.delivered >= c.in.limit {
-			*c.closed = true
-			c.cond.Broadcast()
+			// link failure towards this end: it sees EOF after exactly `limit` bytes; the other
+			// direction drains normally until this end has returned and closed.
 			return 0, io.EOF
 		}
 		if len(c.in.data) > 0 {
@@ -97,8 +121,26 @@ func (c *memConn) Write(p []byte) (int, error) {
 	if *c.closed {
 		return 0, net.ErrClosed
 	}
-	c.out.data = append(c.out.data, p...)
 	*c.sent = append(*c.sent, p...)
+	if c.edits == nil {
+		c.out.data = append(c.out.data, p...)
+		c.woff += len(p)
+	} else {
+		for _, b := range p {
+			if e, ok := c.edits[c.woff]; ok {
+				switch e.kind {
+				case 's':
+					c.out.data = append(c.out.data, e.val...)
+				case 'i':
+					c.out.data = append(append(c.out.data, e.val...), b)
+				case 'd':
+				}
+			} else {
+				c.out.data = append(c.out.data, b)
+			}
+			c.woff++
+		}
+	}
 	c.cond.Broadcast()
 	return len(p), nil
 }
@@ -107,6 +149,7 @@ func (c *memConn) Close() error {
 	c.mu.Lock()
 	defer c.mu.Unlock()
 	// A close lets the peer drain what was already written, then see EOF.
+	c.userClose = true
 	c.out.eof = true
 	c.in.eof = true
 	c.in.data = nil
